@@ -28,15 +28,17 @@ deriving Repr, DecidableEq
 def bitStr (b : Bool) : String := if b then "1" else "0"
 
 /-- A valid block lists, for word `i`, the address `base + 4 i` as 8 hex digits and `str(value)`; an invalid
-    block lists `block_size` pairs of empty strings.  The tag is `0x` + hex digits of the tag, or `num_tag_bits`
-    SPACES for an invalid block. -/
+    block lists `block_size` pairs of empty strings.  The tag is `0x` + hex digits of the tag; for an invalid block it
+    is `num_tag_bits` SPACES of the block's own decoded address — a block is only ever invalid while it has never been
+    written, and then it still carries the default `DecodedAddress(0, 0, 0)`, whose tag has 30 bits: always 30 spaces,
+    whatever the geometry. -/
 def blockRow {α : Type} (g : Geo) (showVal : α → String) (w : Way α) : BlockRow :=
   { valid := bitStr w.valid
     dirty := bitStr w.dirty
     cells := if w.valid then w.vals.mapIdx (fun i v => (toHexStr (w.base + i * 4) 32, showVal v))
              else List.replicate (2 ^ g.blkBits) ("", "")
     tag   := if w.valid then "0x" ++ toHexStr w.tag (tagBits g)
-             else String.ofList (List.replicate (tagBits g) ' ') }
+             else String.ofList (List.replicate 30 ' ') }
 
 /-- `ReplacementStrategy.get_repr()`: LRU — the age rank of every way; PLRU — the tree bits. -/
 inductive Status where
